@@ -323,7 +323,12 @@ theorem delete_step_core {d : Disk} (inv : Inv d) {p : Bytes} (a : RootArg p)
       have hnl3 := noLeak_removed hv hnl ffree'
       refine ⟨h1.symm, ?_, R1.flatten, R2.flatten, rec, freeUnitsOf d.bpb f', hv, hrec.1, hrec.2, fnd, ffree', hvol3⟩
       have hlf3 : d3.labelFiles = false := by rw [← hd3]; exact inv.lf
-      refine { lf := hlf3, geo := g3, coh := ⟨f', c3⟩, root := ?_, read := ⟨_, hread3, hwf3, hnl3⟩ }
+      have htail : TailZero (dirOfBytes (rootBuf d3)) := by
+        rw [hE3]
+        have := inv.tail
+        rw [hE] at this
+        exact tailZero_replace this hE1 (by rw [hE5.1]; decide)
+      refine { lf := hlf3, geo := g3, coh := ⟨f', c3⟩, root := ?_, tail := htail, read := ⟨_, hread3, hwf3, hnl3⟩ }
       intro x hx hx0 hx5 hxl
       rw [hE3] at hx
       have hxo : x ∈ dirOfBytes (rootBuf d) ∨ x = Entry.erase e := by
